@@ -39,6 +39,13 @@ func (c TypesList) HasUserTypes() bool {
 	return c.hasUserTypes
 }
 
+// MarkUserType notes that one of the types refers to a user type although its
+// own name doesn't show it: a rule-set of the "or" rule like
+// {type: "@T", nullable: true} becomes an unnamed type.
+func (c *TypesList) MarkUserType() {
+	c.hasUserTypes = true
+}
+
 func (TypesList) IsJsonTypeCompatible(json.Type) bool {
 	return true
 }
